@@ -104,7 +104,7 @@ pub fn deref_mut_h() {
 pub fn deref_mut_h() {
     let mut x = oracle::mk(&mut KaniSrc);
     let v: %s = <%s as Val>::draw(&mut KaniSrc);
-    let want = oracle::with_target(&x, v);
+    let want = oracle::with_target(&x, Clone::clone(&v));
     let q = oracle::deref_mut_addr(&x);
     let p = (&mut *x) as *mut _ as *const %s;
     assert!(p == q, "contract: &mut *x has the address of the DerefMut-designated field");
@@ -114,6 +114,6 @@ pub fn deref_mut_h() {
 }
 """ % (tgt, tgt, tgt))
         u.kani_obls["deref_mut_h"] = ("%s/%s/DerefMut::deref_mut/contract" % (prop, P.pid), "&mut *x is the designated field; *x = v changes only it")
-        u.replay.append('{ let mut x = oracle::mk(s); let v: %s = <%s as Val>::draw(s); let want = oracle::with_target(&x, v); let q = oracle::deref_mut_addr(&x);\n'
+        u.replay.append('{ let mut x = oracle::mk(s); let v: %s = <%s as Val>::draw(s); let want = oracle::with_target(&x, Clone::clone(&v)); let q = oracle::deref_mut_addr(&x);\n'
                         '      let p = (&mut *x) as *mut _ as *const %s; chk(out, "&mut *x is the designated field", p == q, true); *x = v;\n'
                         '      chk(out, "*x = v changes only that field", oracle::same_d(&x, &want), true); }' % (tgt, tgt, tgt))
